@@ -26,6 +26,11 @@ type Roles struct {
 	Multi   Multi       // funded 2-of-2 multisig account
 	MultiIn Multi       // same keys, signatures placed in the wrong order
 	Deep    Multi       // multisig with more keys than TxSigLimit allows
+	NodeLow chain.Key   // non-custodial node whose operator account holds less than one fee; output = Out2
+	Out2    chain.Key   // output address of NodeLow (funded, balance differs from every other account)
+	Out3    chain.Key   // funded account used as the new output address in output-address edits
+	NewApp  chain.Key   // funded plain account named as the new key of an application transfer
+	Multis  []Multi     // funded multisig accounts of 2, 3 and 4 keys (Multis[0] = Multi)
 }
 
 const NCStake = 60000000000
@@ -50,10 +55,11 @@ func NewChain(o Options) (*Lab, *Roles) {
 	} else {
 		chain.ResetGlobals(o.Features, 2, 1)
 	}
-	w, g := chain.DefaultWorld(o.ChainID, 2, 2, 2, 5)
+	w, g := chain.DefaultWorld(o.ChainID, 2, 2, 2, 8)
 	g.Features = o.Features
 	r := &Roles{W: w, Val: w.Vals[0], Node: w.Servs[0], NodeNC: w.Servs[1], Out: w.Accts[0], App: w.Apps[0], App2: w.Apps[1],
-		Rich: w.Accts[1:4], TwoDen: w.Accts[4], Owner: w.Owner, Fresh: w.Fresh}
+		Rich: w.Accts[1:4], TwoDen: w.Accts[4], Owner: w.Owner, Fresh: w.Fresh,
+		NodeLow: w.Vals[1], Out2: w.Accts[5], Out3: w.Accts[6], NewApp: w.Accts[7]}
 	for i := 0; i < 4; i++ {
 		r.Poor = append(r.Poor, chain.KeyN(3000+uint64(i)))
 	}
@@ -65,6 +71,14 @@ func NewChain(o Options) (*Lab, *Roles) {
 		deep = append(deep, Single{chain.KeyN(4100 + uint64(i))})
 	}
 	r.Deep = Multi{Members: deep}
+	r.Multis = []Multi{r.Multi}
+	for n := 3; n <= 4; n++ {
+		var ms []Signer
+		for i := 0; i < n; i++ {
+			ms = append(ms, Single{chain.KeyN(uint64(4200 + 10*n + i))})
+		}
+		r.Multis = append(r.Multis, Multi{Members: ms})
+	}
 	g.Mutate = func(gs *chain.Genesis) {
 		for i := range gs.Nodes.Validators {
 			if gs.Nodes.Validators[i].Address.Equals(r.NodeNC.Addr) {
@@ -80,6 +94,14 @@ func NewChain(o Options) (*Lab, *Roles) {
 			gs.Auth.Accounts = append(gs.Auth.Accounts, &auth.BaseAccount{Address: k.Addr, Coins: c, PubKey: k.Pub})
 		}
 		for _, a := range gs.Auth.Accounts {
+			if ba, ok := a.(*auth.BaseAccount); ok {
+				// distinct balances, so that a fee taken from the wrong account is visible in the dump
+				for i, k := range []chain.Key{r.Out, r.Out2, r.Out3, r.NewApp, r.App, r.App2, r.NodeNC} {
+					if ba.Address.Equals(k.Addr) {
+						ba.Coins = upokt(1000000000000 + int64(i+1)*1111111)
+					}
+				}
+			}
 			if ba, ok := a.(*auth.BaseAccount); ok && ba.Address.Equals(r.TwoDen.Addr) {
 				ba.Coins = sdk.Coins{sdk.NewCoin("aaa", sdk.NewInt(1000000)), sdk.NewCoin(sdk.DefaultStakeDenom, sdk.NewInt(1000000000000))}
 			}
@@ -99,21 +121,29 @@ func NewChain(o Options) (*Lab, *Roles) {
 	// multisig keys cannot appear in genesis (auth.ValidateGenesis rejects them): fund their
 	// accounts with ordinary transfers in a setup block
 	var setup [][]byte
-	for i, m := range []Multi{r.Multi, r.Deep} {
+	for i, m := range append([]Multi{r.Deep}, r.Multis...) {
 		setup = append(setup, chain.SignTx(o.ChainID, r.Rich[0], chain.MsgSend(r.Rich[0].Addr, AddrOf(m.Pub()), 1000000000), chain.DefaultFee*(o.FeeMulti+o.SendMulti+1), int64(900+i), ""))
 	}
 	// genesis validators pass through LegacyValidator (no output address): make NodeNC
 	// non-custodial with an edit-stake signed by the operator; 60e9 = stake weight ceiling, so later
 	// edits with the same amount are accepted
 	setup = append(setup, chain.SignTx(o.ChainID, r.NodeNC, chain.MsgNodeStake(r.NodeNC, NCStake, []string{chain.ChainHash}, "https://nc.example:443", r.Out.Addr, nil), chain.DefaultFee*(o.FeeMulti+1), 950, ""))
+	// NodeLow: non-custodial (output Out2); afterwards its operator account is drained to half a fee
+	setup = append(setup, chain.SignTx(o.ChainID, r.NodeLow, chain.MsgNodeStake(r.NodeLow, NCStake, []string{chain.ChainHash}, "https://low.example:443", r.Out2.Addr, nil), chain.DefaultFee*(o.FeeMulti+1), 951, ""))
 	l.EmptyBlock()
-	l.Begin(setup)
-	for _, t := range setup {
-		if res := l.Deliver(t); res.Code != 0 {
-			panic("setup transfer failed: " + res.Log)
+	run := func(txs [][]byte) {
+		l.Begin(txs)
+		for _, t := range txs {
+			if res := l.Deliver(t); res.Code != 0 {
+				panic("setup transaction failed: " + res.Log)
+			}
 		}
+		l.End()
 	}
-	l.End()
+	run(setup)
+	drainFee := chain.DefaultFee * (o.FeeMulti + o.SendMulti + 1)
+	bal := n.App.VerifAccountKeeper().GetCoins(l.Ctx(), r.NodeLow.Addr).AmountOf(sdk.DefaultStakeDenom).Int64()
+	run([][]byte{chain.SignTx(o.ChainID, r.NodeLow, chain.MsgSend(r.NodeLow.Addr, r.Rich[0].Addr, bal-drainFee-Fee/2), drainFee, 952, "")})
 	return l, r
 }
 
